@@ -371,7 +371,11 @@ class CookieJar(AbstractCookieJar):
                     # Cut everything from the last slash to the end
                     path = "/" + path[1 : path.rfind("/")]
                 cookie["path"] = path
-            path = path.rstrip("/")
+            # Key by the path minus one trailing slash: filter_cookies() looks up
+            # the request path's prefixes cut at "/" boundaries. Stripping more
+            # would file "/foo//" under "/foo" and send it to "/foo/bar".
+            if path.endswith("/"):
+                path = path[:-1]
 
             if max_age := cookie["max-age"]:
                 try:
